@@ -46,7 +46,7 @@ def check(ctx: Ctx) -> list[RuleResult]:
     out.append(r1)
 
     # ---- R2 ---------------------------------------------------------------------------
-    r2 = RuleResult("R2", "views do not raise on payload arithmetic / computed keys", "may_raise(view) contains no ArithmeticError↓ and no KeyError from a computed key", min_instances=40)
+    r2 = RuleResult("R2", "views do not raise on payload arithmetic / computed keys", "may_raise(view) contains no ArithmeticError↓, no KeyError from a computed key and no IndexError from a constant index into a list/tuple of unproven length", min_instances=40)
     views = [f for f in repo.funcs.values() if f.module.name.startswith("ramses_rf") and f.name in VIEW_NAMES and f.is_property and f.parent is None]
     seen: dict[str, list[str]] = {}
     det = {}
@@ -54,7 +54,7 @@ def check(ctx: Ctx) -> list[RuleResult]:
         r2.instances += 1
         r2.nontrivial += 1
         esc = ea.may_raise(f)
-        bad = [c for c in esc if ea.h.is_sub(c, "builtins.ArithmeticError") or c == "builtins.KeyError"]
+        bad = [c for c in esc if ea.h.is_sub(c, "builtins.ArithmeticError") or c in ("builtins.KeyError", "builtins.IndexError")]
         if not bad:
             r2.ok({"view": f.short, "may_raise": sorted(short_cls(c) for c in esc)})
             continue
